@@ -344,3 +344,41 @@ pub fn op(p: &Profile) -> BoxedStrategy<Op> {
 pub fn txn_ops(p: &Profile, max: usize) -> BoxedStrategy<Vec<Op>> {
     prop::collection::vec(op(p), 1..=max).boxed()
 }
+
+/// Rewrites every `Any` map inside of the op to at most one entry (multi-key maps are written in
+/// HashMap iteration order, which defeats byte-level comparisons of encodings).
+pub fn single_key_maps(op: &mut Op) {
+    fn fix(a: &mut AnyV) {
+        match a {
+            AnyV::Map(m) => {
+                let first = m.iter().next().map(|(k, v)| (k.clone(), v.clone()));
+                m.clear();
+                if let Some((k, mut v)) = first {
+                    fix(&mut v);
+                    m.insert(k, v);
+                }
+            }
+            AnyV::Arr(v) => v.iter_mut().for_each(fix),
+            _ => {}
+        }
+    }
+    fn fix_val(v: &mut Val) {
+        if let Val::Any(a) = v {
+            fix(a)
+        }
+    }
+    match op {
+        Op::TextEmbed { v, .. } => fix_val(v),
+        Op::ArrInsert { vals, .. } => vals.iter_mut().for_each(fix_val),
+        Op::ArrPushBack { v, .. } | Op::ArrPushFront { v, .. } | Op::MapSet { v, .. } => fix_val(v),
+        Op::MapTryUpdate { v, .. } | Op::XmlSetAttr { v, .. } => fix(v),
+        Op::TextDelta { delta, .. } => {
+            for d in delta.iter_mut() {
+                if let DeltaOp::Embed(a, _) = d {
+                    fix(a)
+                }
+            }
+        }
+        _ => {}
+    }
+}
